@@ -132,14 +132,16 @@ def r2(ctx, cfg):
         ok = is_param_field(a[0], "shares", "rewards") and contains(a[1], lambda x: x[0] == "call" and x[1] == "staking::Shares::share_of_rewards")
     ctx.ob(R, qf.key, "shown=accrued+new-share", ok, "the shown reward is not shares.rewards + share_of_rewards(..)", fn=qf, sample="shares.rewards + shares.share_of_rewards(..)")
     # payout path: accrual adds the same share to shares.rewards
-    clos = [g for g in F.lexical(uf.key) if g.kind == "closure"]
+    from rules import stakes
     ok = False
-    for g in clos:
-        for b, t in g.calls():
-            if t["callee"].get("trait") == "std::ops::AddAssign":
-                a = P.call_args(g, t, b)
-                if contains(a[0], lambda x: x[0] == "field" and x[2] == "rewards") and contains(a[1], lambda x: x[0] == "call" and x[1] == "staking::Shares::share_of_rewards"):
-                    ok = True
+    for u in stakes.entry_updates(P, F, uf):
+        for op, fld, v in u.ops():
+            if op.endswith("AddAssign::add_assign") and fld == "rewards" and contains(v, lambda x: x[0] == "call" and x[1] == "staking::Shares::share_of_rewards") and \
+                    set(u.changes) == {("&mut", "rewards")}:
+                ok = True
+        if "rewards" in u.changes and set(u.changes) == {"rewards"} and contains(u.changes["rewards"], lambda x: x[0] == "call" and x[1].endswith("Add::add") and
+                                                                                 contains(x, lambda y: y[0] == "call" and y[1] == "staking::Shares::share_of_rewards")):
+            ok = True
     ctx.ob(R, uf.key, "accrual+=share", ok, "update_rewards does not accrue shares.rewards += share_of_rewards(..)", fn=uf, sample="shares.rewards += shares.share_of_rewards(..)")
     # last_rewards_calculation advanced to block.time and saved before stakers are updated
     sv = store_calls(P, uf, VINFO, ("save",))
